@@ -89,6 +89,14 @@ def plan(tier, seed):
         for level in ("1.5", "1.1"):
             for L, rpc in ((3, 1), (3, 2), (5, 2), (5, 3)):
                 cases.append({"spec": spec_for(level, L), "devs": [], "rpc": rpc, "label": f"{level} baseline L={L} rpc={rpc}"})
+    # the record sequence numbers of the preambles are bookkeeping: descending, rotated, equal, zero or gapped numbering must
+    # not change which line is which
+    for level in ("1.5", "1.1"):
+        L = 6
+        for label, seq in (("descending", [7, 6, 5, 4, 3, 2]), ("rotated run", [5, 6, 7, 2, 3, 4]), ("all equal", [2] * 6), ("zero", [0] * 6), ("gaps", [2, 4, 8, 16, 32, 64]), ("swapped pair", [2, 4, 3, 5, 6, 7]), ("from 1", [1, 2, 3, 4, 5, 6])):
+            devs = [["img0", "line", "preamble.record_sequence_number", {"hex": int(n).to_bytes(4, "big").hex()}, k] for k, n in enumerate(seq)]
+            for rpc in (2, 1024):
+                cases.append({"spec": spec_for(level, L), "devs": devs, "rpc": rpc, "label": f"{level} record sequence numbers {label} rpc={rpc}"})
     # relationships between CONSECUTIVE lines: every ordered pair of stamps of one leap year on lines (1, 2), incl. time going
     # backwards by almost a day, forwards across midnight / new year, and equal stamps
     pair_stamps = [(2016, d, ms) for d in (1, 60, 365, 366) for ms in (0, 1, 43_200_000, 86_399_000, 86_399_999)] + [(2017, 1, 0), (2015, 365, 86_399_999)]
